@@ -46,7 +46,7 @@ func runC15(r *an.Run) {
 	}
 
 	r.Obl("settle-sites-and-their-conditions", "GUARD",
-		"the package's settle-resolution sites are exactly: updateMpp (1), updateLegacy (2), resolveReplayedHtlc (1) through ctx.settleRes, and the two registry fan-outs over HTLCs already in state Settled; each updateMpp / updateLegacy settle site sits below the full condition list of its path, and every accept site of those two functions (an HTLC held for a partial set, a hold invoice or a duplicate) below the conditions that do not depend on completeness (state, address, totals, both expiry margins); settle and accept resolutions are built only by their constructors, accept resolutions only through ctx.acceptRes in those three functions; the locals the conditions are stated on (totalAmt from the MPP record or ctx.totalAmtMsat, paymentAddr, the set sum, setComplete, the accepted set) are not written again once read and the address bytes are not modified in place; a per-HTLC mismatch (declared total, MPP in progress) ends the update without accept or settle and the set loops skip no HTLC; paymentAddrRequired is the invoice's PaymentAddrRequired feature bit; isValidKeySend is true only for a keysend record whose preimage hashes to ctx.hash; the legacy path releases the invoice-level preimage; the replay lookup is inv.Htlcs[ctx.circuitKey]",
+		"the package's settle-resolution sites are exactly: updateMpp (1), updateLegacy (2), resolveReplayedHtlc (1) through ctx.settleRes, and the two registry fan-outs over HTLCs already in state Settled; each updateMpp / updateLegacy settle site sits below the full condition list of its path, and every accept site of those two functions (an HTLC held for a partial set, a hold invoice or a duplicate) below the conditions that do not depend on completeness (state, address, totals, both expiry margins); settle and accept resolutions are built only by their constructors, accept resolutions only through ctx.acceptRes in those three functions; the locals the conditions are stated on (totalAmt from the MPP record or ctx.totalAmtMsat, paymentAddr, the set sum, setComplete, the accepted set) are not written again once read and the address bytes are not modified in place; a per-HTLC mismatch (declared total, MPP in progress) ends the update without accept or settle and the set loops skip no HTLC: the one loop of updateMpp that tests the declared totals and builds the set sum is left only when the set is exhausted or with the fail resolution, every other loop of updateMpp over the accepted set (the keys of a set that failed AMP reconstruction are gathered for its cancellation) lies below the fail resolution of reconstructAMPPreimages and is not left early at all, the one loop of updateLegacy over the accepted HTLCs is left only with the fail resolution; paymentAddrRequired is the invoice's PaymentAddrRequired feature bit; isValidKeySend is true only for a keysend record whose preimage hashes to ctx.hash; the legacy path releases the invoice-level preimage; the replay lookup is inv.Htlcs[ctx.circuitKey]",
 		"one missing condition releases the preimage for an underpaid, misaddressed, too-late or incomplete set", 30,
 		func(o *an.Obl) {
 			want := map[string]int{iv + "updateMpp": 1, iv + "updateLegacy": 2, iv + "resolveReplayedHtlc": 1}
@@ -246,10 +246,38 @@ func runC15(r *an.Run) {
 			}
 			mppSites := append(append([]an.Site{}, accs...), f.Calls(an.CalleeIs(iv+"invoiceUpdateCtx.settleRes"), false)...)
 			c15FactStops(o, f, an.CmpX(total, an.NE, an.FieldPath(nil, "MppTotalAmt"), "totalAmt != htlc.MppTotalAmt"), mppSites, "accept or settle")
-			if hds := c15RangeHeads(f, `\.HTLCSet\(`); len(hds) != 1 {
-				o.FailAt(f.ID+"#set-loops", f.Where(f.Body.Pos()), "expected one loop over the HTLC set in %s, found %d", f.ID, len(hds))
+			// the loops over the accepted set: the one that tests the declared
+			// totals and builds the set sum is left only when the set is
+			// exhausted or with the fail resolution; any other loop over the
+			// set (the keys of a set that failed AMP reconstruction are
+			// gathered for its cancellation) lies below the failed
+			// reconstruction and is not left early at all
+			var sumLoops []*flow.Vertex
+			reconFailed := an.IsNil(an.ResultOf(an.CallTo(iv+"reconstructAMPPreimages", nil), 1), false, "the reconstruction returned a fail resolution")
+			for _, hd := range c15RangeHeads(f, `\.HTLCSet\(`) {
+				rs := hd.Node.(*ast.RangeStmt)
+				sums := false
+				ast.Inspect(rs.Body, func(n ast.Node) bool {
+					if as, ok := n.(*ast.AssignStmt); ok {
+						for _, l := range as.Lhs {
+							if an.Match(f, an.LocalNamed("newSetTotal"), l) {
+								sums = true
+							}
+						}
+					}
+					return !sums
+				})
+				if sums {
+					sumLoops = append(sumLoops, hd)
+					continue
+				}
+				guarded(o, f, an.Site{Fn: f, V: hd, Node: rs}, reconFailed)
+				c15LoopLeftOnlyBy(o, f, hd, "keys of the set that failed reconstruction", nil)
+			}
+			if len(sumLoops) != 1 {
+				o.FailAt(f.ID+"#set-loops", f.Where(f.Body.Pos()), "expected one loop over the HTLC set that builds the set sum in %s, found %d", f.ID, len(sumLoops))
 			} else {
-				c15LoopLeftOnlyBy(o, f, hds[0], "set members", failExit(f))
+				c15LoopLeftOnlyBy(o, f, sumLoops[0], "set members", failExit(f))
 			}
 
 			// updateLegacy
